@@ -56,6 +56,12 @@ package evaluator
 //@   loop 1 invariant step != 0 && 0 - size - 1 <= step && step <= size + 1
 //@   loop 1 invariant step > 0 ==> 0 <= i && i <= size + step && stop <= size
 //@   loop 1 invariant step < 0 ==> i <= size - 1 && i >= step - 1 && stop >= 0 - 1
+// the step used is the step asked for, limited to +-(size+1) (same sign, same selection); each iteration hands
+// the current position to the element accessor once, appends what it returns and advances by the step
+//@   loop 1 invariant step == ((isT(r.Step, *object.PanInt) ? as(r.Step, *object.PanInt).Value : 1) > size + 1 ? size + 1 : ((isT(r.Step, *object.PanInt) ? as(r.Step, *object.PanInt).Value : 1) < 0 - size - 1 ? 0 - size - 1 : (isT(r.Step, *object.PanInt) ? as(r.Step, *object.PanInt).Value : 1)))
+//@   loop 1 step ncalls == prev(ncalls) + 1 && called(prev(ncalls), "valIndex") && arg1(prev(ncalls)) == prev(i) && i == prev(i) + step
+//@   loop 1 step len(elems) == prev(len(elems)) + 1 && elems[prev(len(elems))] == result(prev(ncalls))
+//@   loop 1 step forall k int :: {elems[k]} 0 <= k && k < prev(len(elems)) ==> elems[k] == prev(elems[k])
 //
 //@ func evaluator.arrRange(r, arr) res
 //@   requires r != nil && arr != nil && isVal(r.Start) && isVal(r.Stop) && isVal(r.Step)
@@ -74,6 +80,7 @@ package evaluator
 //
 //@ func evaluator.findElemInArr(env, kwargs, args) res
 //@   requires argsOK(args)
+//@   requires env != nil && kwargs != nil
 //@   requires forall o object.PanObject :: {traceArr(o)} traceArr(o) != nil ==> wfArr(traceArr(o))
 //@   requires forall o object.PanObject :: {traceRange(o)} traceRange(o) != nil ==> wfRange(traceRange(o))
 //@   let self := traceArr(args[0])
@@ -85,6 +92,7 @@ package evaluator
 //
 //@ func evaluator.findElemInStr(env, kwargs, args) res
 //@   requires argsOK(args)
+//@   requires env != nil && kwargs != nil
 //@   requires forall o object.PanObject :: {traceArr(o)} traceArr(o) != nil ==> wfArr(traceArr(o))
 //@   requires forall o object.PanObject :: {traceRange(o)} traceRange(o) != nil ==> wfRange(traceRange(o))
 //
